@@ -7,6 +7,11 @@ pub mod generated {
         pub tag: String,
     }
     #[derive(Default, Clone)]
+    pub struct TopkNode {
+        pub descending: Option<bool>,
+        pub nullable: Option<bool>,
+    }
+    #[derive(Default, Clone)]
     pub struct SortNode {
         pub fetch: Option<u64>,
         pub preserve: bool,
@@ -54,5 +59,21 @@ impl BadDecSort {
     }
     pub fn try_from_proto(n: &SortNode) -> BadDecSort {
         BadDecSort { fetch: n.fetch, preserve: false }
+    }
+}
+
+pub mod generated2 {}
+/// default-collapse rule
+pub struct Topk {
+    pub descending: Option<bool>,
+    pub nullable: bool,
+}
+impl Topk {
+    pub fn try_to_proto(&self) -> generated::TopkNode {
+        generated::TopkNode { descending: self.descending, nullable: Some(self.nullable) }
+    }
+    /// seeded: None and Some(false) collapse although the encoder passes the Option through
+    pub fn try_from_proto(n: &generated::TopkNode) -> Topk {
+        Topk { descending: Some(n.descending.unwrap_or_default()), nullable: n.nullable.unwrap_or(true) }
     }
 }
